@@ -116,7 +116,7 @@ func (w *wireRender) event(st map[string]string) string {
 	case "string":
 		return `"event"`
 	}
-	kind := map[string]string{"k0": "0", "k1": "1", "k65535": "65535", "neg": "-1", "k65536": "65536", "big": "2147483648", "float": "1.5", "string": `"1"`, "exp": "1e3"}[st["kind"]]
+	kind := map[string]string{"k0": "0", "k1": "1", "k65535": "65535", "neg": "-1", "k65536": "65536", "big": "2147483648", "float": "1.5", "string": `"1"`, "exp": "1e3", "wrap32": "4294967297"}[st["kind"]]
 	ts := map[string]string{"t0": "0", "now": "1700000000", "big": "9007199254740992", "neg": "-1", "float": "1.5", "string": `"1700000000"`}[st["created_at"]]
 	tags := map[string]string{
 		"none": `[]`, "one": `[["t","x"]]`,
@@ -190,6 +190,8 @@ func (w *wireRender) filter(st map[string]string) string {
 		f = append(f, `"kinds":[1,-1]`)
 	case "k65536":
 		f = append(f, `"kinds":[65536]`)
+	case "wrap32":
+		f = append(f, `"kinds":[1,4294967297]`)
 	case "float":
 		f = append(f, `"kinds":[1.5]`)
 	case "string":
@@ -228,7 +230,7 @@ func (w *wireRender) filter(st map[string]string) string {
 		f = append(f, `"#t":"x"`)
 	}
 	a := map[string]string{"ok": "30000:" + w.pk + ":x", "dcolon": "30000:" + w.pk + ":a:b:c", "emptyd": "30000:" + w.pk + ":",
-		"twoparts": "30000:" + w.pk, "badkind": "x:" + w.pk + ":d", "kindrange": "70000:" + w.pk + ":d",
+		"kind0emptyd": "0:" + w.pk + ":", "kindwrap": "4294967297:" + w.pk + ":d", "twoparts": "30000:" + w.pk, "badkind": "x:" + w.pk + ":d", "kindrange": "70000:" + w.pk + ":d",
 		"badpk": "30000:zz:d", "upperpk": "30000:" + strings.ToUpper(w.pk) + ":d"}
 	if v, ok := a[st["taga"]]; ok {
 		f = append(f, `"#a":[`+q(v)+`]`)
@@ -240,6 +242,8 @@ func (w *wireRender) filter(st map[string]string) string {
 		f = append(f, `"#ab":["x"]`)
 	case "hashonly":
 		f = append(f, `"#":["x"]`)
+	case "emptykey":
+		f = append(f, `"":1`)
 	case "digit":
 		f = append(f, `"#1":["x"]`)
 	}
